@@ -2,6 +2,8 @@
    input  = L [A srv; A scen; ...]       srv: 0 plain TCP, 1 TLS (standard compatible), 2 UDP, 3 TLS (not standard compatible)
      scen 0 (fault in a hook)      L [A srv; A 0; A pos; exc1; opt exc2; ...]     (exc2 = second fault, raised by on_disconnection)
      scen 1 (set-up fault)         L [A srv; A 1; A stage; exc; ...]              stage 0 = accepted-socket factory, 1 = TLS handshake
+     scen 3 (final forced close)   L [A srv; A 3; A leaf; exc1; ...]                the socket shutdown of the final close raises that leaf kind
+                                                                                   after the handler failed with exc1 (srv 4 = UDP with asyncio.eager_task_factory)
      scen 2 (exit-callback fault)  L [A srv; A 2; exc; ...]                       the transport close inside aclosing() raises (TLS)
      exc = L [A 0; A leaf] | L [A 1; L [A leaf ...]]
    output = L [A aliveA; A aliveB; A crashed; A closed_or_fresh; L hooks; L logs]                                      *)
@@ -26,15 +28,32 @@ Definition enc_out (raises : option exc) (flag : bool) (hooks logs : list Z) : s
   let crashed := match raises with None => false | Some _ => true end in
   L [of_bool (negb crashed); of_bool (negb crashed); of_bool crashed; of_bool flag; enc_list hooks; enc_list logs].
 
+(* A failure that escapes while further datagrams of the address are queued (UBurstQueued): the server is going down,
+   but the done-callback still restarts the client coroutine for what is queued.  Scheduling detail of the world, not of
+   the library: with the eager task factory every restart runs inside the callback (all four generators start), with the
+   default factory only the first restart is scheduled before the cancellation of the server's task group arrives. *)
+Definition escaped_burst_hooks (eager : bool) (p : upos) (o : uoutcome) : list Z :=
+  match u_raises o, p with
+  | Some _, UBurstQueued => if eager then [2; 3; 2; 3; 2; 3; 2; 3] else [2; 3; 2; 3]
+  | _, _ => u_hooks o
+  end.
+(* ... and each of those rounds logs what its filters swallowed of the group *)
+Definition escaped_burst_logs (eager : bool) (p : upos) (o : uoutcome) : list Z :=
+  match u_raises o, p with
+  | Some _, UBurstQueued =>
+      let lg := u_logs o in if eager then lg ++ lg ++ lg ++ lg else lg ++ lg
+  | _, _ => u_logs o
+  end.
+
 Definition run (x : sx) : sx :=
   match x with
   | L (A srv :: A 0 :: A p :: e1 :: e2 :: _) =>
       do e1 <- dec_exc e1;
       do e2 <- as_opt dec_exc e2;
-      if Z.eqb srv 2 then
+      if Z.eqb srv 2 || Z.eqb srv 4 then
         do p <- upos_of_code p;
         let o := udp_client_task p e1 in
-        enc_out (u_raises o) (u_fresh o) (u_hooks o) (u_logs o)
+        enc_out (u_raises o) (u_fresh o) (escaped_burst_hooks (Z.eqb srv 4) p o) (escaped_burst_logs (Z.eqb srv 4) p o)
       else
         do p <- pos_of_code p;
         let o := tcp_client_task (flavour_of srv) p e1 e2 in
@@ -42,6 +61,11 @@ Definition run (x : sx) : sx :=
   | L (A srv :: A 1 :: A st :: e :: _) =>
       do e <- dec_exc e;
       let o := setup_task (if Z.eqb st 0 then StConnect else StHandshake) e in
+      enc_out (o_raises o) (o_closed o) (o_hooks o) (o_logs o)
+  | L (A srv :: A 3 :: k :: e1 :: _) =>
+      do k <- dec_leaf k;
+      do e1 <- dec_exc e1;
+      let o := tcp_final_close_fault (flavour_of srv) e1 k in
       enc_out (o_raises o) (o_closed o) (o_hooks o) (o_logs o)
   | L (A srv :: A 2 :: e :: _) =>
       do e <- dec_exc e;
